@@ -82,8 +82,11 @@ fn ser_named_type(ty: &OwnedDataModelType, value: &Value, out: &mut Vec<u8>) -> 
             out.extend_from_slice(used);
         }
         OwnedDataModelType::I128 => {
-            let val = value.as_i64().right()?;
-            let val = i128::from(val);
+            // serde_json holds an i128 as an i64 or, above i64::MAX, as a u64
+            let val = match value.as_i64() {
+                Some(val) => i128::from(val),
+                None => i128::from(value.as_u64().right()?),
+            };
             let val = zig_zag_i128(val);
             let mut buf = [0u8; varint_max::<i128>()];
             let used = varint_u128(val, &mut buf);
